@@ -133,6 +133,9 @@ def main(argv=None):
         if args.replay:
             from monitor import replay
             return replay.run(prop, args.replay)
+        for fn in os.listdir(os.path.join(REPLAY, prop)):
+            if fn.endswith(".json"):
+                os.unlink(os.path.join(REPLAY, prop, fn))
         if args.bounded_only:
             from pyvc.frontend import Sources
             funcs, obligations, undecided_fns, solve_s, src = [], [], [], 0.0, Sources()
